@@ -81,6 +81,7 @@ type Ctx struct {
 	Seed   int64
 	Repo   string
 	Verif  string
+	Out    string
 	GOOS   string
 	GOARCH string
 
@@ -499,7 +500,7 @@ func (c *Ctx) finish() int {
 		fmt.Printf("KNOWN-FINDING: property=%s %s [%s at %s]\n", c.Prop, o.Known, o.Key, o.Pos)
 	}
 
-	vdir := filepath.Join(c.Verif, "evidence", "violations")
+	vdir := filepath.Join(c.Out, "violations")
 	os.MkdirAll(vdir, 0o755)
 	// remove replay files of earlier runs of this property
 	if old, _ := filepath.Glob(filepath.Join(vdir, c.Prop+"-*.json")); old != nil {
@@ -578,8 +579,8 @@ func (c *Ctx) finish() int {
 		ev["assumptions"] = []string{}
 	}
 	b, _ := json.MarshalIndent(ev, "", " ")
-	os.MkdirAll(filepath.Join(c.Verif, "evidence"), 0o755)
-	if err := os.WriteFile(filepath.Join(c.Verif, "evidence", c.Prop+".json"), b, 0o644); err != nil {
+	os.MkdirAll(c.Out, 0o755)
+	if err := os.WriteFile(filepath.Join(c.Out, c.Prop+".json"), b, 0o644); err != nil {
 		die("write evidence: %v", err)
 	}
 	fmt.Printf("%s %s: %d obligations (%d by rule, %d by table, %d known findings, %d open) in %.1fs\n",
